@@ -431,10 +431,12 @@ theorem numberAfterSign_no_dot (sign d : List UInt8) (i2 : List UInt8) (i1 : Lis
     numberAfterSign sign i1 = some (sign ++ d, i2) := by
   unfold numberAfterSign
   rw [hd]
-  simp only
-  split
-  · rename_i r heq; exact absurd heq (h r)
-  · rfl
+  cases i2 with
+  | nil => rfl
+  | cons b r =>
+    by_cases hb : b = 46
+    · subst hb; exact absurd rfl (h r)
+    · simp only
 
 theorem numRest_spec {s : Src} (hs : AsciiThenBoundary s) (start p1 : Nat) (hst : Bnd s start)
     (haft : After s start p1) :
@@ -573,5 +575,140 @@ theorem numberLiteral_eq_getNumberLiteral {s : Src} (hs : AsciiThenBoundary s) (
       · right; exact ⟨q, q1, q2, by rw [hnl, q3]⟩
     · rw [hr] at hspec; exact hspec
     · rw [hr] at hspec; exact hspec
+
+
+/-! ## comment lines -/
+
+theorem commentChars_other {b : UInt8} (r : List UInt8) (h1 : b ≠ 10) (h2 : b ≠ 13) :
+    commentChars (b :: r) = (b :: (commentChars r).1, (commentChars r).2) := by
+  conv => lhs; unfold commentChars
+  split <;> simp_all
+
+theorem commentChars_cr_other {b : UInt8} (r : List UInt8) (h1 : b ≠ 10) :
+    commentChars (13 :: b :: r) = (13 :: (commentChars (b :: r)).1, (commentChars (b :: r)).2) := by
+  conv => lhs; unfold commentChars
+  split <;> simp_all
+
+theorem commentChars_cr_eof : commentChars [13] = ([13], []) := by
+  simp [commentChars]
+
+theorem commentLineEndGo_ge (s : Src) (n p : Nat) : p ≤ commentLineEndGo s n p := by
+  induction n generalizing p with
+  | zero => simp [commentLineEndGo]
+  | succ n ih =>
+    simp only [commentLineEndGo]
+    split
+    · omega
+    · have := ih (p + 1); omega
+
+theorem commentChars_commentLineEndGo (s : Src) (n p : Nat) (hn : s.size - p ≤ n) :
+    commentChars (rest s p) = (seg s p (commentLineEndGo s n p), rest s (commentLineEndGo s n p)) := by
+  induction n generalizing p with
+  | zero =>
+    have : rest s p = [] := rest_eq_nil_iff.mpr (by omega)
+    simp [commentLineEndGo, this, commentChars, seg]
+  | succ n ih =>
+    rcases rest_cases s p with ⟨h1, h2⟩ | ⟨b, h1, h2⟩
+    · simp [commentLineEndGo, isEol, h1, h2, commentChars, seg]
+    · have hge := commentLineEndGo_ge s n (p + 1)
+      by_cases hb : b = 10
+      · subst hb
+        have : isEol s p = true := by simp [isEol, h1]
+        simp only [commentLineEndGo, this, if_true]
+        rw [seg_self, h2]
+        simp [commentChars]
+      · by_cases hc : b = 13
+        · subst hc
+          rcases rest_cases s (p + 1) with ⟨g1, g2⟩ | ⟨d, g1, g2⟩
+          · have hne : isEol s p = false := by simp [isEol, h1, g1]
+            simp only [commentLineEndGo, hne, Bool.false_eq_true, if_false]
+            have hi := ih (p + 1) (by omega)
+            rw [g2] at hi
+            have e1 : seg s (p + 1) (commentLineEndGo s n (p + 1)) = [] := by
+              have := congrArg Prod.fst hi; simpa [commentChars] using this.symm
+            have e2 : rest s (commentLineEndGo s n (p + 1)) = [] := by
+              have := congrArg Prod.snd hi; simpa [commentChars] using this.symm
+            rw [seg_cons h1 (by omega), h2, g2, commentChars_cr_eof, e1, e2]
+          · by_cases hd : d = 10
+            · subst hd
+              have : isEol s p = true := by simp [isEol, h1, g1]
+              simp only [commentLineEndGo, this, if_true]
+              rw [seg_self, h2, g2]
+              simp [commentChars]
+            · have hne : isEol s p = false := by simp [isEol, h1, g1, hd]
+              simp only [commentLineEndGo, hne, Bool.false_eq_true, if_false]
+              have hi := ih (p + 1) (by omega)
+              rw [seg_cons h1 (by omega), h2, g2, commentChars_cr_other _ hd, ← g2, hi]
+        · have hne : isEol s p = false := by
+            unfold isEol; rw [h1]; split <;> simp_all
+          simp only [commentLineEndGo, hne, Bool.false_eq_true, if_false]
+          have hi := ih (p + 1) (by omega)
+          rw [seg_cons h1 (by omega), h2, commentChars_other _ hb hc, hi]
+
+/-- T1: `get_comment_line` reads exactly the grammar's `comment_char*` -/
+theorem commentChars_eq_getCommentLine {s : Src} (p : Nat) (hp : Bnd s p) :
+    ∃ e, getCommentLine s p = .ok ⟨p, e⟩ e ∧ commentChars (rest s p) = (spanBytes s ⟨p, e⟩, rest s e) := by
+  have h := commentLineEndGo_spec s (s.size - p) p (by have := hp.le; omega)
+  refine ⟨commentLineEndGo s (s.size - p) p, ?_, ?_⟩
+  · unfold getCommentLine
+    simp only []
+    rw [slice_ok h.1 hp (isEol_bnd h.2.2 h.2.1)]
+  · rw [spanBytes_eq_seg]
+    exact commentChars_commentLineEndGo s _ p (Nat.le_refl _)
+
+/-- the grammar's comment marker: `("###" | "##" | "#")` as (level, rest) -/
+def commentMarker : List UInt8 → Option (Nat × List UInt8)
+  | 35 :: 35 :: 35 :: r => some (3, r)
+  | 35 :: 35 :: r => some (2, r)
+  | 35 :: r => some (1, r)
+  | _ => none
+
+theorem commentMarker_two (d : UInt8) (r : List UInt8) (hd : d ≠ 35) :
+    commentMarker (35 :: 35 :: d :: r) = some (2, d :: r) := by
+  unfold commentMarker
+  split
+  · rename_i heq; injection heq with _ h; injection h with _ h; injection h with h _; exact absurd h.symm hd
+  · rename_i heq; injection heq with _ h; injection h with _ h; rw [h]
+  · rename_i hn _ heq; injection heq with _ h; exact absurd h.symm (hn _)
+  · rename_i hn; exact absurd rfl (hn _)
+
+theorem commentMarker_one (c : UInt8) (r : List UInt8) (hc : c ≠ 35) :
+    commentMarker (35 :: c :: r) = some (1, c :: r) := by
+  unfold commentMarker
+  split
+  · rename_i heq; injection heq with _ h; injection h with h _; exact absurd h.symm hc
+  · rename_i heq; injection heq with _ h; injection h with h _; exact absurd h.symm hc
+  · rename_i heq; injection heq with _ h; rw [h]
+  · rename_i hn; exact absurd rfl (hn _)
+
+/-- T1: `get_comment_level` is the grammar's ordered choice `"###" | "##" | "#"` -/
+theorem commentMarker_eq_getCommentLevel (s : Src) (p : Nat) :
+    commentMarker (rest s p) =
+      (if (getCommentLevel s p).1 = 0 then none
+       else some ((getCommentLevel s p).1, rest s (getCommentLevel s p).2)) := by
+  unfold getCommentLevel
+  simp only [isCurrentByte_iff]
+  rcases rest_cases s p with ⟨h1, h2⟩ | ⟨b, h1, h2⟩
+  · simp [h1, h2, commentMarker]
+  · by_cases hb : b = 35
+    · subst hb
+      rcases rest_cases s (p + 1) with ⟨g1, g2⟩ | ⟨c, g1, g2⟩
+      · simp [h1, h2, g1, g2, commentMarker]
+      · by_cases hc : c = 35
+        · subst hc
+          rcases rest_cases s (p + 2) with ⟨k1, k2⟩ | ⟨d, k1, k2⟩
+          · simp [h1, h2, g1, g2, k1, k2, commentMarker]
+          · by_cases hd : d = 35
+            · subst hd
+              simp [h1, h2, g1, g2, k1, k2, commentMarker]
+            · have : commentMarker (35 :: 35 :: d :: rest s (p + 2 + 1)) = some (2, d :: rest s (p + 2 + 1)) :=
+                commentMarker_two _ _ hd
+              simp [h1, h2, g1, g2, k1, k2, hd, this]
+        · have : commentMarker (35 :: c :: rest s (p + 1 + 1)) = some (1, c :: rest s (p + 1 + 1)) :=
+            commentMarker_one _ _ hc
+          simp [h1, h2, g1, g2, hc, this]
+    · have : commentMarker (b :: rest s (p + 1)) = none := by
+        unfold commentMarker; split <;> simp_all
+      simp [h1, h2, hb, this]
 
 end FluentProofs.SpecLex
